@@ -127,6 +127,14 @@ def det_worker(args):
             zero_ok = entry_name in ("integrate", "solve_determ")
             if zero_ok and rng.random() < 0.4:
                 special = rng.choice(["origin", "repeat"])
+            # whole-number requested times handed over as integers, after a fractional initial time; or plain lists / tuples
+            times_as = None
+            if special is None and rng.random() < 0.3:
+                if tend >= 2.0 and rng.random() < 0.6:
+                    special = "int"
+                    times_as = rng.choice(["int-list", "int-array"])
+                else:
+                    times_as = rng.choice(["list", "tuple"])
             grid = rd.time_grid(rng, tend, special=special)
             v0 = [float(v) for v in x0] + [float(grid[0])] + [float(v) for v in theta] + [0.0] * sy.nd
             f_ref = np.array(f_fun(v0), float)
@@ -136,9 +144,9 @@ def det_worker(args):
             except Exception as ex:
                 res["machinery"] = "reference integration failed: %r" % ex
                 return res
-            sol, snaps, err = rd.perform_call(m, entry_name, method, fo, io, x0, grid)
+            sol, snaps, err = rd.perform_call(m, entry_name, method, fo, io, x0, grid, times_as=times_as)
             res["calls"] += 1
-            cfgname = "%s/%s/full=%s/origin=%s%s" % (entry_name, method, fo, io, "" if not special else "/grid=" + special)
+            cfgname = "%s/%s/full=%s/origin=%s%s" % (entry_name, method, fo, io, ("" if not special else "/grid=" + special) + ("" if not times_as else "/times=" + times_as))
             res["configs"].append(cfgname)
             setup = rd.judge_setup(rd.perform_call.last_setup, f_ref, J_ref)
             if err:
